@@ -6,7 +6,7 @@ NAMES = ["a1", "home", "work", "tag_x", "Zed", "p10", "bob"]
 KEYS = ["due", "k", "ab_c", "shared"]
 VALUES = ["v1", "42", "val", "007", "Some_Value", "x9"]
 DATE_LOOKALIKES = ["45min", "2days", "3m_left", "1y2", "10D_x", "7d7", "0d0", "12month"]
-HEADS = ["240101", "231201", "5d", "-3d", "10m", "-2m", "1y", "0d"]
+HEADS = ["240101", "231201", "5d", "-3d", "10m", "-2m", "1y", "0d", "700315", "991231", "690101", "680229"]   # YY >= 69 is 20YY too
 DIRS = ["sub", "a", "deep_1"]
 OKEYS = ["alpha", "create", "modify", "priority", "type", "none"]
 GKEYS = ["file", "section", "type", "priority", "#", "@", "%", "+"]
